@@ -21,6 +21,8 @@ mod fieldspec;
 mod fields;
 mod c04;
 mod c08;
+mod total;
+mod c02msg;
 
 use std::collections::HashMap;
 
@@ -74,6 +76,8 @@ fn main() {
         "fields" => fields::run(&o),
         "c04" => c04::run(&o),
         "c08" => c08::run(&o),
+        "total" => total::run(&o),
+        "c02msg" => c02msg::run(&o),
         other => {
             eprintln!("unknown stream {other}");
             std::process::exit(2);
